@@ -524,6 +524,38 @@ func TestC19(t *testing.T) {
 				cl.label("pair:offset-near-tolerance")
 			}
 		}
+		// pairs of bases (and of offsets) sitting exactly on a relative tolerance boundary of 1e-12: d is a small
+		// multiple of 2^-52, x1 = d/1e-12 - u*d for u in [0,1], x2 = x1 + d (both in [1,2), so the sum is exact). Whether
+		// such a pair is equal is the implementation's business; that the verdict is the same both ways is the property.
+		for j := 0; j < 12; j++ {
+			k := float64(rapid.IntRange(4504, 9007).Draw(t, "boundaryk"))
+			d := k * 0x1p-52
+			u := rapid.SampledFrom([]float64{0, 0.25, 0.5, 0.75, 1}).Draw(t, "boundaryu")
+			x1 := d/1e-12 - u*d
+			x2 := x1 + d
+			if !(x1 > 1 && x2 < 2) {
+				continue
+			}
+			a, e1 := (gen.MapSpec{Kind: spec.Kind, Gamma: x1, Offset: offset}).Build()
+			b, e2 := (gen.MapSpec{Kind: spec.Kind, Gamma: x2, Offset: offset}).Build()
+			if e1 == nil && e2 == nil && a.Equals(b) != b.Equals(a) {
+				t.Fatalf("C19 %s: Equals is not symmetric between bases %v and %v (same offset %v): %v vs %v", spec.Kind, x1, x2, offset, a.Equals(b), b.Equals(a))
+			}
+			a, e1 = (gen.MapSpec{Kind: spec.Kind, Gamma: gamma, Offset: x1}).Build()
+			b, e2 = (gen.MapSpec{Kind: spec.Kind, Gamma: gamma, Offset: x2}).Build()
+			if e1 == nil && e2 == nil && a.Equals(b) != b.Equals(a) {
+				t.Fatalf("C19 %s: Equals is not symmetric between offsets %v and %v (same base %v): %v vs %v", spec.Kind, x1, x2, gamma, a.Equals(b), b.Equals(a))
+			}
+			cl.label("pair:tolerance-boundary")
+		}
+		// bases far apart at the coarse end (accuracies that all round to 1): never equal
+		for _, gs := range [][2]float64{{1e15, 1e30}, {1e13, 2e13}, {1e100, 1e200}, {3e16, 6e16}} {
+			a, e1 := (gen.MapSpec{Kind: spec.Kind, Gamma: gs[0], Offset: 0}).Build()
+			b, e2 := (gen.MapSpec{Kind: spec.Kind, Gamma: gs[1], Offset: 0}).Build()
+			if e1 == nil && e2 == nil && (a.Equals(b) || b.Equals(a)) {
+				t.Fatalf("C19 %s: mappings with bases %v and %v compare equal", spec.Kind, gs[0], gs[1])
+			}
+		}
 		// clearly different offsets
 		for _, d := range []float64{1, -1, 0.5, 1e-6 * math.Max(1, math.Abs(offset)), -offset} {
 			o, err := gen.MapSpec{Kind: spec.Kind, Gamma: gamma, Offset: offset + d}.Build()
